@@ -71,7 +71,7 @@ PROP = {
                     "not the instance the LightningChannel advances (as in lnd: ChainArbitrator.Start -> FetchAllChannels vs. the link's channel)"],
     "units": [{
         "name": "breach", "pkg": "contractcourt", "test": "TestVerifC04",
-        "files": ["contractcourt/c04_test.go", "contractcourt/c04cw_test.go"], "exports": {"lnwallet": E1X},
+        "files": ["contractcourt/c04_test.go", "contractcourt/cw_common_test.go", "contractcourt/c04cw_test.go"], "exports": {"lnwallet": E1X},
         "shards": {"quick": 8, "thorough": 16},
         "watchdog": {"quick": 1200, "thorough": 7200},
         "floors": {"quick": {"nontrivial": 150, "revoked_states_with_htlc_outputs": 2000,
